@@ -837,3 +837,49 @@ Proof.
   inversion H; subst. cbn [sr_ib1 sr_ib sr_fcn sr_slope].
   split; [reflexivity|]. split; [|exact E2]. exists f1, s1. split; [exact E1|reflexivity].
 Qed.
+
+(* ------------------------------------------------------------------------- *)
+(* Part F — parabolic_max                                                     *)
+(* ------------------------------------------------------------------------- *)
+Open Scope Q_scope.
+Lemma peak3_parabola A h M : ~ A == 0 ->
+  let v k := A * (k - h) * (k - h) + M in
+  fst (peak3 (v (-1)) (v 0) (v 1)) == h /\ snd (peak3 (v (-1)) (v 0) (v 1)) == M.
+Proof.
+  intros HA v. unfold peak3.
+  set (p0 := (v (-1) - 2 * v 0 + v 1) / 2).
+  assert (E0 : p0 == A) by (unfold p0, v; field).
+  destruct (Qeq_bool p0 0) eqn:Eb.
+  { apply Qeq_bool_eq in Eb. rewrite E0 in Eb. contradiction. }
+  cbn [fst snd].
+  assert (Eip : - ((v 1 - v (-1)) / 2) / (p0 + 0) / 2 == h).
+  { rewrite E0. unfold v. field. exact HA. }
+  split; [exact Eip|]. rewrite Eip, E0. unfold v. field.
+Qed.
+
+(* the sub-bin correction never exceeds half a bin when the centre sample is a maximum *)
+Lemma peak3_half_bin v0 v1 v2 : v0 <= v1 -> v2 <= v1 ->
+  - (1 # 2) <= fst (peak3 v0 v1 v2) <= 1 # 2.
+Proof.
+  intros H0 H2. unfold peak3. cbn [fst].
+  set (p0 := (v0 - 2 * v1 + v2) / 2).
+  destruct (Qeq_bool p0 0) eqn:Eb.
+  - apply Qeq_bool_eq in Eb.
+    assert (E : v0 - 2 * v1 + v2 == 0).
+    { unfold p0 in Eb. setoid_replace (v0 - 2 * v1 + v2) with (2 * ((v0 - 2 * v1 + v2) / 2)) by field. rewrite Eb. ring. }
+    assert (E0 : v0 == v1) by lra. assert (E2 : v2 == v1) by lra.
+    setoid_replace (- ((v2 - v0) / 2) / (p0 + 1) / 2) with 0; [lra|].
+    rewrite Eb, E0, E2. field.
+  - assert (Hne : ~ p0 == 0) by (intros E; apply Qeq_bool_neq in Eb; contradiction).
+    assert (Hneg : v0 - 2 * v1 + v2 < 0).
+    { destruct (Qlt_le_dec (v0 - 2 * v1 + v2) 0); [assumption|]. exfalso. apply Hne. unfold p0.
+      assert (v0 - 2 * v1 + v2 == 0) as -> by lra. field. }
+    set (D := 2 * v1 - v0 - v2). assert (HD : 0 < D) by (unfold D; lra).
+    setoid_replace (- ((v2 - v0) / 2) / (p0 + 0) / 2) with ((v2 - v0) / D * (1 # 2)).
+    2:{ unfold p0, D. field. split; lra. }
+    assert (Hq : - (1) <= (v2 - v0) / D <= 1).
+    { split.
+      - apply Qle_shift_div_l; [exact HD|]. unfold D. lra.
+      - apply Qle_shift_div_r; [exact HD|]. unfold D. lra. }
+    lra.
+Qed.
